@@ -10,6 +10,7 @@ import HappyProofs.C13.NoDelegate
 import HappyProofs.C13.PropsDetect
 import HappyProofs.C13.PropsPhi
 import HappyProofs.C13.SchedCheck
+import HappyProofs.C13.Report
 /-!
 C13 property theorems (statements about `Spec` predicates and model runs only).
 
@@ -39,6 +40,9 @@ C13 property theorems (statements about `Spec` predicates and model runs only).
   report `x` ALIVE once an action later than `cx + δ + m + Y·max(m, min_std) + interval` has happened —
   no hypothesis on the detector's answers, both code variants, independent of the probe order.
   `failure_detected_by_phi_partial` below is the one-tick lemma for an abstract `Detector`.
+* `report_agrees_with_states`, `report_lists_exact`, `failure_detected_report` (`Report.lean`) — every
+  public summary report (`stats` counters, member lists, `repr` counts) agrees with the per-member
+  states (`Spec.reportOk`); after the deadline the crashed member is not in `alive_members` either.
 * `no_delegate_detected`, `unacked_probe_dead_after_suspicion`, `lone_observer_detects`,
   `lone_observer_within_deadline` — clause 2 when nobody can relay an indirect probe (a pair,
   `indirect_probe_count = 0`, every other peer DEAD): the ack timeout sends nothing, still suspects and
